@@ -28,6 +28,9 @@ type c16Expect struct {
 }
 
 func c16Size(r *vf.Rand, max int) int {
+	if max > 1<<20 && r.Chance(1, 4) {
+		return r.Range(1<<20+1, 2<<20) // then the pooled frame goes back to carrying ordinary payloads
+	}
 	classes := []int{0, 1, 125, 126, 127, 200}
 	if max >= 70000 {
 		classes = append(classes, 65535, 65536)
@@ -52,6 +55,13 @@ func c16Size(r *vf.Rand, max int) int {
 	return n
 }
 
+// c16Extra is one more overlapping write with its completion count.
+type c16Extra struct {
+	what  string
+	calls int
+	err   error
+}
+
 func runC16(c *vf.Case) {
 	r := c.Rng
 	s, t := newWS(c)
@@ -62,8 +72,15 @@ func runC16(c *vf.Case) {
 	if r.Chance(1, 25) {
 		max = websocket.DefaultMaxMessageSize
 	}
+	huge := r.Chance(1, 150)
+	if huge {
+		max = 4 << 20 // the limit raised well above the default: messages of more than a megabyte are written
+	}
 	s.SetMaxMessageSize(max)
 	t.WriteMax = []int{0, 0, 1, 3, 7, 100}[r.Intn(6)]
+	if huge {
+		t.WriteMax = []int{0, 0, 100000}[r.Intn(3)]
+	}
 	t.DeferWrites = r.Bool()
 	c.Logf("max=%d transport accepts %d bytes/write deferred=%v", max, t.WriteMax, t.DeferWrites)
 	var expect []c16Expect
@@ -126,6 +143,7 @@ func runC16(c *vf.Case) {
 	overlaps, syncBlocks := 0, 0
 	setPayloadTwice := 0
 	leftoverPending, leftoverNew, leftovers := false, false, 0
+	var extras []*c16Extra
 	secondIssued, secondCalls := false, 0
 	var secondErr error
 	thirdIssued, thirdCalls := false, 0
@@ -223,6 +241,21 @@ func runC16(c *vf.Case) {
 							closed = true
 						}
 						secondIssued = true
+						extraWrite := func(when string) {
+							n := c16Size(r, max)
+							payload := r.Bytes(n)
+							wx := fmt.Sprintf("(%s) AsyncWrite %d bytes", when, n)
+							c.Logf("  %s", wx)
+							expect = append(expect, c16Expect{wsref.OpBinary, true, payload, wx})
+							x := &c16Extra{what: wx}
+							extras = append(extras, x)
+							s.AsyncWrite(payload, websocket.TypeBinary, func(e error) { x.calls++; x.err = e })
+							overlaps++
+						}
+						if !closed && s.State() == websocket.StateActive && r.Bool() {
+							// two frames are queued behind the held one
+							extraWrite("a second frame queued while the first write is held")
+						}
 						if !closed && r.Bool() {
 							// the held write completes, the flush goes on with the queued frame (held again), and a THIRD
 							// write-type call arrives during that second transport write
@@ -241,12 +274,22 @@ func runC16(c *vf.Case) {
 								s.AsyncWrite(payload, websocket.TypeBinary, func(e error) { thirdCalls++; thirdErr = e })
 								thirdIssued = true
 								overlaps++
+								if r.Bool() {
+									extraWrite("one more during the second transport write of the chain")
+								}
 							}
 						}
 					}
 					t.ReleaseWrites()
 				}
 				t.Pump()
+				for _, x := range extras {
+					if x.calls != 1 || x.err != nil {
+						c.Failf("overlapping-write-callback", "%s, then %s: its callback was invoked %d times, err=%v", what, x.what, x.calls, x.err)
+						return false
+					}
+				}
+				extras = nil
 				if thirdIssued {
 					thirdIssued = false
 					if thirdCalls != 1 || thirdErr != nil {
